@@ -27,11 +27,26 @@ class KInst:
                     D=None if self.X is not None else [list(map(float, r)) for r in self.D])
 
 
-def gen_kinst(rng, nmin=2, nmax=10, m=0, labelled=False, kinds=("feat", "lattice", "dup", "mat", "jitter", "outlier", "micro", "mat", "asym")):
+def gen_kinst(rng, nmin=2, nmax=10, m=0, labelled=False, kinds=("feat", "lattice", "dup", "mat", "jitter", "outlier", "micro", "mat", "asym", "flat")):
     kind = rng.choice(kinds)
     n = rng.randint(nmin, nmax)
     N = n + m
     labels = gen_labels(rng, n, 3) if labelled and n >= 2 else None
+    if kind == "flat" and n >= 3:
+        # every sample has the same neighbourhood geometry (regular polygon, or one distance for all pairs): all unmapped
+        # densities are equal, the stored density range is exactly 0
+        if rng.random() < 0.5:
+            import math as _m
+            X = [[_m.cos(2 * _m.pi * j / n), _m.sin(2 * _m.pi * j / n)] for j in range(n)] + [[rng.uniform(-1.5, 1.5), rng.uniform(-1.5, 1.5)] for _ in range(m)]
+            D = metric_matrix("euclidean", X)
+            D = [[(D[a][b] if (a >= n or b >= n) else round(D[a][b], 9)) for b in range(N)] for a in range(N)]
+            return KInst("flat", None, D, n, m, None, labels)
+        w_ = float(rng.randint(1, 5))
+        D = [[0.0 if a == b else (w_ if (a < n and b < n) else float(rng.randint(1, 7))) for b in range(N)] for a in range(N)]
+        for a in range(N):
+            for b in range(a):
+                D[a][b] = D[b][a]
+        return KInst("flat", None, D, n, m, None, labels)
     if kind == "asym":
         # directed dissimilarities shipped by the library: d(a, b) != d(b, a); every arc of the k-NN graph is weighed FROM its owner
         metric = rng.choice(["neyman", "pearson", "kullback_leibler", "k_divergence"])
